@@ -205,6 +205,8 @@ func (op *CanonicalOrderedPartition) expandValue(neighbours [][]int, currentBest
 		}
 		ints.Sort(op.value[startValue:])
 		if len(currentBest) > 0 && ints.Compare(op.value, currentBest[:len(op.value)]) == -1 && ints.Compare(op.value, firstLeaf[:len(op.value)]) != 0 {
+			//Record how far the value has been extended so that deage removes these entries again.
+			op.singletonPrefixLength = j + 1
 			return true
 		}
 	}
